@@ -34,16 +34,13 @@ def slots (c : BatchCfg) : Nat := c.dev * nb c * bsz c
 /-- `n_pad = total_size - n_states` (an `int` in Python: may be negative for invalid inputs) -/
 def npad (c : BatchCfg) : Int := (slots c : Int) - (c.n : Int)
 
-/-- split into consecutive chunks of length `k` (last one may be short); `k = 0` gives `[]`. -/
-def chunks {β : Type} (k : Nat) (xs : List β) : List (List β) :=
-  if h : k = 0 ∨ xs = [] then [] else
-    xs.take k :: chunks k (xs.drop k)
-termination_by xs.length
-decreasing_by
-  have hk : k ≠ 0 := fun e => h (Or.inl e)
-  have hx : xs ≠ [] := fun e => h (Or.inr e)
-  have : 0 < xs.length := List.length_pos_iff.mpr hx
-  simp only [List.length_drop]; omega
+/-- split into consecutive chunks of length `k` (last one may be short); `k = 0` gives `[]`.
+    Structural recursion on a fuel argument so that the kernel can evaluate it. -/
+def chunksAux {β : Type} (k : Nat) : Nat → List β → List (List β)
+  | 0, _ => []
+  | fuel+1, xs => if k = 0 ∨ xs.isEmpty then [] else xs.take k :: chunksAux k fuel (xs.drop k)
+
+def chunks {β : Type} (k : Nat) (xs : List β) : List (List β) := chunksAux k xs.length xs
 
 /-- apply `f` to every slot of a devices × batches × batch_size layout
     (`pmap` over devices, `lax.scan` without carry dependence over batches, `vmap` over slots) -/
